@@ -38,6 +38,16 @@ def strategy_(draw, tier):
                                     max_nodes=6 if big else 5, p_node=1, p_opts=0, p_constr=1, p_ignore=6, p_se=6, k_slack=1, p_len=1, p_wild=2))
     else:
         case = draw(gen.model_cases(max_nodes=6 if big else 5, p_node=1, p_opts=0, p_constr=2, p_ignore=4, p_se=4, k_slack=1, p_len=2, p_wild=4))
+    if case["cls"] in ("kMinPathError", "kMinPathErrorCycles") and draw(st.integers(0, 1)) == 0:
+        # k=None: the model picks the covering number of the non-ignored elements itself - in both representations
+        case["kw"]["k"] = None
+        case["meta"]["k_none"] = True
+        weighted = [v for v, d in case["graph"]["nodes"] if "flow" in d]
+        if weighted and draw(st.booleans()):
+            # an element with error scale 0 counts as ignored: it must not raise the covering number either
+            v = weighted[draw(st.integers(0, len(weighted) - 1))]
+            sc = [x for x in case["kw"].get("error_scaling", []) if x[0] != v]
+            case["kw"]["error_scaling"] = sc + [[v, 0]]
     return case
 
 
@@ -104,7 +114,7 @@ def _objective(cls, r):
     return "solved"
 
 
-def round_trips(G, constraints, labels):
+def round_trips(G, constraints, labels, routes=()):
     import flowpaths as fp
 
     try:
@@ -125,8 +135,8 @@ def round_trips(G, constraints, labels):
         if not N.has_edge(*e) or e not in N.edges_to_ignore:
             return violation("roundtrip_original_edge", f"expanded original edge {e} missing or not ignored", labels)
     # condense(expand(path)) == path for every edge-path of G (short ones)
-    paths = [[u, v] for (u, v) in G.edges()] + [[v] for v in G.nodes()]
-    for p in paths[:12]:
+    paths = [list(r) for r in routes if r and all(v in G for v in r)][:4] + [[u, v] for (u, v) in G.edges()] + [[v] for v in G.nodes()]
+    for p in paths[:16]:
         ex = []
         for i, v in enumerate(p):
             a, b = N.get_expanded_edge(v)
@@ -180,7 +190,7 @@ def run_case(case, tier="quick"):
         if kw.get(f_):
             labels.add("kw:" + f_)
     if cls not in COVER_CLASSES:
-        bad = round_trips(G, kw.get(ckey, []), labels)
+        bad = round_trips(G, kw.get(ckey, []), labels, [r for r, _w in (case.get("meta") or {}).get("planted", [])])
         if bad is not None:
             return bad
     try:
